@@ -701,9 +701,27 @@ func vAddOverlapping(s *store, a, b vGenEvent, at int) (errA, errB error, fired 
 		g.armed = false
 		g.mu.Unlock()
 	}
-	errB = safe(b)
+	doneB := make(chan error, 1)
+	go func() { doneB <- safe(b) }()
+	released := false
+	select {
+	case errB = <-doneB:
+	case <-time.After(20 * time.Second):
+		// b cannot complete while a is parked OUTSIDE any transaction: the store serialises on something it holds
+		// across write transactions. Let a go on, so that the run continues; the hang is an outcome.
+		if fired {
+			close(g.release)
+			released = true
+		}
+		errB = <-doneB
+		if errB == nil {
+			errB = errors.New("verif: Add blocked by an Add that is between its write transactions")
+		}
+	}
 	if fired {
-		close(g.release)
+		if !released {
+			close(g.release)
+		}
 		errA = <-done
 	}
 	return errA, errB, fired
